@@ -19,7 +19,7 @@ EXPLANATION = (
     'refused arm sends nothing; R4 every completion (oneshot send in the response path) takes its sender from '
     'complete_pending_*(..), which remove the entry (remove_entry), so a second response with the same id finds '
     'nothing; R5 request ids are issued by one atomic fetch_add; R6 (= C12.R2, async client) a batch reply element is '
-    'stored at the slot of its own id. R4 also requires that complete_pending_* select the pending entry by exact key '
+    'stored at the slot of its own id, and (= C12.R1) whatever the batch hands back went through those slots (no path around the placeholder loop). R4 also requires that complete_pending_* select the pending entry by exact key '
     "(no scan of the table); R7 no ordering operation on Id values anywhere in the client crates (Id's derived Ord is "
     "lexicographic for string ids; fixture control); ARR inside the loop over an array message's elements "
     'handle_recv_message is left only with an error. NOT decided: the interleaving space itself; correctness of tokio '
@@ -277,6 +277,9 @@ def r6_batch_slots(ctx):
     c12.r2_slot_index(ctx)
     # and the front end hands the slots out one entry per call (no slot skipped: later answers would move to earlier calls)
     c12.r8_frontend_keeps_positions(ctx, "C03.R6b")
+    # and whatever the batch hands back went through those slots: a path around the placeholder loop (a "fast path" that
+    # orders the replies instead of placing them) gives a call another call's response when an id is repeated or missing
+    c12.r1_sized_by_request(ctx)
 
 
 
